@@ -19,6 +19,8 @@ JOBS=${VERIF_THREADS:-16}
 export CARGO_NET_OFFLINE=true
 cd $V/harness || exit 2
 cp -n $V/harness/Cargo.lock $V/fuzz/Cargo.lock 2>/dev/null
+# the replay binary must be built from the same tree as the fuzz target
+if ! cargo build --release --offline >$V/work/build.log 2>&1; then echo "harness does not build; see $V/work/build.log" >&2; exit 2; fi
 if ! cargo +nightly fuzz build --fuzz-dir $V/fuzz -s none $TARGET >$V/work/fuzz-build.log 2>&1; then
   echo "fuzz target $TARGET does not build; see $V/work/fuzz-build.log" >&2; tail -5 $V/work/fuzz-build.log >&2; exit 2
 fi
